@@ -69,9 +69,10 @@ pub fn check(c: &Case) -> Outcome {
         Ok(b) => b,
         Err(m) => return Outcome::Fail(m),
     };
-    // the same through fill
+    // the same through fill (when wrap returns no line at all there is no
+    // line to carry an indent; that case is C09's "never fewer lines")
     let filled = textwrap::fill(t, spec.options());
-    for (k, l) in filled.split(e).enumerate() {
+    for (k, l) in filled.split(e).enumerate().take(a.len()) {
         let ind = if k == 0 {
             spec.initial_indent.as_str()
         } else {
